@@ -462,7 +462,51 @@ def assertion_file(m, k, placement):
             tpi = "[" + ", ".join(tp["n"] for tp in i["tparams"]) + "]"
         out.append("func zz_assert_%s%s() {\n\tvar a %s%s%s\n\tvar b Re_%s%s\n\ta = b\n\tb = a\n\t_, _ = a, b\n}\n" % (
             i["name"], tpd, srcq, i["name"], tpi, i["name"], tpi))
+        # every boolean accessor against the source signature (constant map keys must be distinct:
+        # the declaration only compiles when the comparison is true)
+        for mm in method_set(i, known_ifaces(dict(m, **s))):
+            out.append('var _ = map[bool]int{false: 0, ZZ_%s_%s_flags == "%s": 1}' % (i["name"], mm["n"], expected_flags(mm["sig"])))
+        out.append("")
     return "\n".join(out)
+
+
+def expected_flags(sig):
+    """IsVariadic HasParams HasReturns ReturnsError AcceptsContext [ReturnStatement], from the source signature"""
+    ps, rs = sig["params"], sig["results"]
+    b = lambda x: "true" if x else "false"
+    ctx0 = bool(ps) and ps[0]["t"]["k"] == "named" and ps[0]["t"]["pkg"] == "context" and ps[0]["t"]["n"] == "Context" and not (sig["variadic"] and len(ps) == 1)
+    return "%s %s %s %s %s [%s]" % (b(sig["variadic"] and ps), b(ps), b(rs), b(any(r["t"] == basic("error") for r in rs)), b(ctx0), "return" if rs else "")
+
+
+def value_run(m, root, oracle):
+    """Value-level oracle: one test binary that imports every re-emitted package (in-package and
+    separate-package placements) and runs the checks the probe registered in ZZ_Vals."""
+    regs = []
+    for k, s in enumerate(m["srcs"]):
+        for pl in ("in", "out"):
+            # (the separate package imports the source package, which contains the in-package re-emission)
+            if (s["name"], pl) in oracle or (s["name"], "in") in oracle or not out_path(m, k, root, pl, REEMIT_FILES).exists():
+                continue
+            regs.append((s["name"], pl, s["path"] if pl == "in" else m["mod"] + "/mocks/" + s["name"]))
+    if not regs:
+        return {}
+    d = root / "zzrun"
+    d.mkdir(exist_ok=True)
+    src = ["package zzrun\n", "import (\n\t\"testing\""] + ['\tp%d "%s"' % (j, path) for j, (_, _, path) in enumerate(regs)] + [")\n",
+           "func TestVals(t *testing.T) {"]
+    for j, (name, pl, _) in enumerate(regs):
+        src.append('\tfor k, f := range p%d.ZZ_Vals {\n\t\tif !f() {\n\t\t\tt.Errorf("VALFAIL %s %s %%s", k)\n\t\t}\n\t}' % (j, name, pl))
+    src.append("}\n")
+    (d / "run_test.go").write_text("\n".join(src))
+    env = dict(os.environ, GOPROXY="off", GOFLAGS="-mod=mod")
+    p = run(["go", "test", "-count=1", "-vet=off", "-run", "TestVals", "./zzrun/"], cwd=root, env=env, timeout=900)
+    text = (p.stdout + p.stderr).decode(errors="replace")
+    res = {}
+    for name, pl, what in re.findall(r"VALFAIL (\S+) (\S+) (\S+)", text):
+        res.setdefault((name, pl), []).append("value level: a variadic call built from Call / ArgCallList / ArgCallListSlice delivered the wrong number of variadic elements to %s" % what)
+    if p.returncode != 0 and not res:
+        raise RuntimeError("value-level runner failed although every package type-checks:\n" + text[-3000:])
+    return res
 
 
 ASSERT_FILES = {"in": "zz_assert.go", "xt": "zz_assert_x_test.go", "out": "zz_assert.go"}
@@ -676,6 +720,8 @@ def process(ctx, m, root, placements=PLACEMENTS, oracle=True):
         rc2, log2 = reemit(ctx, m, root, placements)
         out["rc_reemit"], out["log_reemit"] = rc2, log2[-2000:]
         out["oracle"] = go_check(root)
+        for key, msgs in value_run(m, root, out["oracle"]).items():
+            out["oracle"].setdefault(key, []).extend(msgs)
         for k, s in enumerate(m["srcs"]):
             for pl in placements:
                 if selected(s, pl) and not out_path(m, k, root, pl, REEMIT_FILES).exists():
@@ -775,7 +821,7 @@ def check(ctx, only=None):
     if only is not None:
         modules = only
     else:
-        nmod, nsrc = (10, 30) if ctx.thorough() else (1, 26)
+        nmod, nsrc = (10, 30) if ctx.thorough() else (1, 20)
         modules = []
         for j in range(nmod):
             m = gen_module(ctx.rng, nsrc)
